@@ -14,10 +14,14 @@ TypeLevelOk   == {"ghosts", "where_clause", "child_parents"}
 TypeMisplaced == {"parent", "literal", "pattern", "type_hint"}
 \* near-misses the documentation anticipates ("Perhaps you meant ...")
 TypeMisnamed  == {"children", "ghost", "child"}
-MemberOk      == {"map", "ghost_nd", "ghost_d", "ghost_owned_d", "ghost_ref_d", "child", "parent0", "parentp_idx", "parentp_untyped", "literal", "pattern", "type_hint"}
+MemberOk      == {"map", "ghost_nd", "ghost_d", "ghost_owned_d", "ghost_ref_d", "child", "parent0", "parentp_idx", "parentp_untyped", "parentp_untyped2", "parentp_untyped_deep",
+                  "literal", "pattern", "type_hint"}
 \* parentp_idx: #[parent(0)] -- a parameterised parent whose child field is given by index and carries no name;
-\* parentp_untyped: #[parent(b1, [parent(c1)] inner)] -- a nested parent without its type
-IsParentItem(n) == n \in {"parent0", "parentp_idx", "parentp_untyped"}
+\* parentp_untyped: #[parent(b1, [parent(c1)] inner)] -- a nested parent without its type;
+\* parentp_untyped2: #[parent(b1, [parent(c1)] inner: Inner, [parent(c2)] inner2)] -- the SECOND nested parent lacks its type;
+\* parentp_untyped_deep: #[parent([parent([parent(d1)] deep)] inner: Inner)] -- the type is missing one level further down
+UntypedField(n) == CASE n = "parentp_untyped" -> "inner" [] n = "parentp_untyped2" -> "inner2" [] n = "parentp_untyped_deep" -> "deep" [] OTHER -> "-"
+IsParentItem(n) == n \in {"parent0", "parentp_idx", "parentp_untyped", "parentp_untyped2", "parentp_untyped_deep"}
 GhostKinds(n) == CASE n \in {"ghost_nd", "ghost_d"} -> Kinds [] n = "ghost_owned_d" -> {"OI", "FO", "OIE"} [] n = "ghost_ref_d" -> {"RI", "FR", "RIE"} [] OTHER -> {}
 MemberMisplaced == {"where_clause"}
 MemberMisnamed  == {"children", "child_parents"}
@@ -32,7 +36,7 @@ AllMemberAttrs(in) == UNION {ToSetQ(in.ms[i]) : i \in DOMAIN in.ms}
 Count(s, P(_)) == Cardinality({i \in DOMAIN s : P(s[i])})
 
 \* instructions that are recognised at the level where they stand (only these take part in the semantic rules)
-UnsupportedOn(dt) == IF dt = "struct" THEN {"literal", "pattern", "type_hint"} ELSE {"parent0", "parentp_idx", "parentp_untyped", "child"}
+UnsupportedOn(dt) == IF dt = "struct" THEN {"literal", "pattern", "type_hint"} ELSE {"parent0", "parentp_idx", "parentp_untyped", "parentp_untyped2", "parentp_untyped_deep", "child"}
 RecognisedT(in) == {x \in ToSetQ(in.tattrs) : x.n \in TypeLevelOk}
 RecognisedM(in, i) == {x \in ToSetQ(in.ms[i]) : x.n \in MemberOk \ UnsupportedOn(in.dt)}
 
@@ -103,10 +107,9 @@ ParentFieldUnnamed(in) ==
 \* class 10: a nested parent must state its type for From conversions (the nested value has to be constructed)
 UntypedParent(in) ==
   IF in.dt # "struct" THEN {} ELSE
-  {[c |-> "untyped_parent", a |-> "inner"] :
-     p \in {q \in (DOMAIN in.ms) \X (DOMAIN in.traits) :
-              (\E x \in RecognisedM(in, q[1]) : x.n = "parentp_untyped" /\ x.cp \in {"-", in.traits[q[2]].cp})
-              /\ Appl(in.traits[q[2]].n) \cap {"FO", "FR"} # {}}}
+  {[c |-> "untyped_parent", a |-> UntypedField(y.n)] :
+     y \in {x \in UNION {RecognisedM(in, i) : i \in DOMAIN in.ms} :
+              UntypedField(x.n) # "-" /\ \E t \in DOMAIN in.traits : x.cp \in {"-", in.traits[t].cp} /\ Appl(in.traits[t].n) \cap {"FO", "FR"} # {}}}
 
 \* class 12: instruction not supported on this kind of member
 Unsupported(in) ==
